@@ -121,3 +121,11 @@ pub fn open_fds() -> Vec<c_int> {
     v.sort();
     v
 }
+
+/// (used, limit) of the user's pending-signal quota, from /proc/self/status "SigQ:".
+pub fn sigq_usage() -> Option<(u64, u64)> {
+    let st = std::fs::read_to_string("/proc/self/status").ok()?;
+    let l = st.lines().find(|l| l.starts_with("SigQ:"))?;
+    let mut it = l[5..].trim().split('/');
+    Some((it.next()?.parse().ok()?, it.next()?.parse().ok()?))
+}
